@@ -382,7 +382,7 @@ def expected_faults(prop):
     if prop == "C08":
         base = ["retry", "op_raised", "bad_key", "restart", "deliver_cross_node", "deliver_duplicate",
                 "unpickle_without_table", "unpickle_missing_isotope", "duplicate_table_name",
-                "add_isotope_out_of_order"]
+                "add_isotope_out_of_order", "table_handle_dropped"]
     return base
 
 
